@@ -5,6 +5,7 @@ from ..rules_tomo import B1_B2_counts, W_fitter, W3_indexing, S2_estimator, S3_n
 
 def run(tree, rep, tier):
     flow = Flow(tree)
+    flow.describe(rep)
     B1_B2_counts(rep, flow, want=("B1",))
     W1_W2_builders(rep, flow, want=("W2",))
     W3_indexing(rep, flow)
